@@ -329,9 +329,8 @@ theorem posix_unlink_eq {fs : Fs} (h : WF fs) (p : Path) : Backend.ofRes (Posix.
     | dir => simp [isFile, hl, Backend.ofRes]
     | file c => simp [isFile, hl, Backend.ofRes]
 
-/-- `open`: the two backends agree except for mode r+b on a missing file in an existing directory -/
-theorem posix_openFile_eq {fs : Fs} (h : WF fs) (p : Path) (mode : Nat)
-    (hreg : ¬ (3 ≤ mode ∧ lookup fs p = none ∧ isDir fs p.dropLast = true)) :
+/-- `open`: the two backends agree, for every path and mode (since `r+b` no longer creates on Memory: F7-c) -/
+theorem posix_openFile_eq {fs : Fs} (h : WF fs) (p : Path) (mode : Nat) :
     Backend.ofRes (Posix.openFile fs p mode) = Fs.openFile fs p mode := by
   unfold Posix.openFile Fs.openFile
   match mode with
@@ -380,11 +379,7 @@ theorem posix_openFile_eq {fs : Fs} (h : WF fs) (p : Path) (mode : Nat)
       cases hl : lookup fs p with
       | none =>
         obtain ⟨er, he⟩ := resolve_of_none hl
-        have hd : isDir fs p.dropLast = false := by
-          cases hd : isDir fs p.dropLast with
-          | false => rfl
-          | true => exact absurd ⟨by omega, hl, hd⟩ hreg
-        simp [he, hd, Backend.ofRes]
+        simp [he, h1, Backend.ofRes]
       | some e =>
         rw [resolve_of_lookup h hl]
         cases e with
@@ -521,26 +516,27 @@ theorem WF.isDir_of_proper_prefix {fs : Fs} (h : WF fs) {p q : Path} {e : Entry}
   have := h.isDir_take_of_lookup hl p.length hlen
   rwa [← List.prefix_iff_eq_take.mp hpq] at this
 
-/-- `rename`, destination not existing (the RNTO guard): the two backends agree except when the source
-    exists and the destination's parent is a file, or the source is a prefix of the destination whose parent
-    is a directory, or the two paths are the same -/
-theorem posix_rename_eq {fs : Fs} (h : WF fs) (src dst : Path) (hdst : lookup fs dst = none) (hne : src ≠ dst)
-    (h1 : ¬ (exists_ fs src = true ∧ isFile fs dst.dropLast = true))
-    (h2 : ¬ (exists_ fs src = true ∧ isDir fs dst.dropLast = true ∧ src.isPrefixOf dst = true)) :
+/-- `rename`, destination not existing (the RNTO guard): the two backends agree — for every source and
+    destination (since the Memory backend refuses what the filesystem refuses: F7 a, b, d) -/
+theorem posix_rename_eq {fs : Fs} (h : WF fs) (src dst : Path) (hdst : lookup fs dst = none) :
     Backend.posix.rename fs src dst = Fs.rename fs src dst := by
   have hdne : dst ≠ [] := (lookup_none_iff.mp hdst).1
   simp only [Backend.posix]
   unfold Posix.rename Fs.rename
-  simp only [hne, if_false]
   by_cases hs : src = []
-  · simp [hs]
+  · subst hs
+    have : lookup fs [] = some .dir := by simp [lookup]
+    simp [this, Ne.symm hdne]
   · simp only [hs, hdne, or_self, if_false]
     cases hls : lookup fs src with
     | none =>
       cases Posix.dirPart fs src <;> cases Posix.dirPart fs dst <;> simp
     | some se =>
+      have hne : src ≠ dst := by
+        intro e; rw [e, hdst] at hls; cases hls
       have hexs : exists_ fs src = true := exists_iff.mpr ⟨se, hls⟩
       rw [dirPart_ok_of_lookup h hls]
+      simp only [hne, if_false]
       cases hlp : lookup fs dst.dropLast with
       | none =>
         cases hdp : Posix.dirPart fs dst with
@@ -551,21 +547,25 @@ theorem posix_rename_eq {fs : Fs} (h : WF fs) (src dst : Path) (hdst : lookup fs
       | some dp =>
         have hsp : exists_ fs src.dropLast = true := exists_of_isDir (h.isDir_parent (mem_of_lookup hs hls))
         cases dp with
-        | file c => exact absurd ⟨hexs, isFile_iff.mpr ⟨c, hlp⟩⟩ h1
+        | file c =>
+          cases hdp : Posix.dirPart fs dst with
+          | error er => simp
+          | ok u =>
+            have := isDir_iff.mp (parent_of_dirPart_ok hdp)
+            rw [hlp] at this; cases this
         | dir =>
           have hdd : isDir fs dst.dropLast = true := isDir_iff.mpr hlp
-          have hnp : src.isPrefixOf dst = false := by
-            cases hp : src.isPrefixOf dst with
-            | false => rfl
-            | true => exact absurd ⟨hexs, hdd, hp⟩ h2
-          have hnp2 : dst.isPrefixOf src = false := by
-            cases hp : dst.isPrefixOf src with
-            | false => rfl
-            | true =>
-              have := isDir_iff.mp (h.isDir_of_proper_prefix hls (prefix_iff.mp hp) (Ne.symm hne))
-              rw [hdst] at this; cases this
           rw [dirPart_ok_of_parent h hdd]
-          simp [hsp, hnp, hnp2, hdst]
+          cases hp : src.isPrefixOf dst with
+          | true => simp
+          | false =>
+            have hnp2 : dst.isPrefixOf src = false := by
+              cases hp2 : dst.isPrefixOf src with
+              | false => rfl
+              | true =>
+                have := isDir_iff.mp (h.isDir_of_proper_prefix hls (prefix_iff.mp hp2) (Ne.symm hne))
+                rw [hdst] at this; cases this
+            simp [hsp, hnp2, hdst]
 
 /-- a failing `rename` on the POSIX side never changes the tree -/
 theorem posix_rename_false (fs : Fs) (src dst : Path) (h : (Backend.posix.rename fs src dst).2 = false) :
@@ -575,31 +575,12 @@ theorem posix_rename_false (fs : Fs) (src dst : Path) (h : (Backend.posix.rename
   | ok fs' => rw [hr] at h; cases h
   | error er => rfl
 
-/-- a failing `rename` on Memory changes the tree only when the destination's parent is a file -/
-theorem mem_rename_false (fs : Fs) (src dst : Path) (h : (Fs.rename fs src dst).2 = false)
-    (h1 : ¬ (exists_ fs src = true ∧ isFile fs dst.dropLast = true)) : (Fs.rename fs src dst).1 = fs := by
+/-- a failing `rename` on Memory never changes the tree (the refusals come before anything is detached) -/
+theorem mem_rename_false (fs : Fs) (src dst : Path) (h : (Fs.rename fs src dst).2 = false) :
+    (Fs.rename fs src dst).1 = fs := by
   unfold Fs.rename at *
-  by_cases hsd : src = dst
-  · simp [hsd] at h
-  · simp only [hsd, if_false] at h ⊢
-    by_cases hr : src = [] ∨ dst = []
-    · simp [hr]
-    · simp only [hr, if_false] at h ⊢
-      cases hls : lookup fs src with
-      | none => simp
-      | some se =>
-        cases hlp : lookup fs dst.dropLast with
-        | none => simp
-        | some dp =>
-          simp only [hls, hlp] at h ⊢
-          cases hsp : exists_ fs src.dropLast with
-          | false => simp
-          | true =>
-            cases dp with
-            | file c => exact absurd ⟨exists_iff.mpr ⟨se, hls⟩, isFile_iff.mpr ⟨c, hlp⟩⟩ h1
-            | dir =>
-              simp only [hsp, Bool.not_true, Bool.false_eq_true, if_false] at h
-              split at h <;> cases h
+  repeat' split
+  all_goals first | rfl | (simp_all)
 
 /-! ### the invariant is preserved by every operation -/
 
@@ -952,27 +933,21 @@ theorem wf_mem_rename {fs : Fs} (h : WF fs) (src dst : Path) : WF (Fs.rename fs 
   · exact h
   · split
     · exact h
-    · rename_i hne hr
-      have hs : src ≠ [] := fun h0 => hr (Or.inl h0)
-      have hd : dst ≠ [] := fun h0 => hr (Or.inr h0)
-      simp only
-      cases hls : lookup fs src with
-      | none => exact h
-      | some se =>
-        cases hlp : lookup fs dst.dropLast with
-        | none => exact h
-        | some dp =>
-          simp only
+    · split
+      · exact h
+      · rename_i hr
+        have hs : src ≠ [] := fun h0 => hr (Or.inl h0)
+        have hd : dst ≠ [] := fun h0 => hr (Or.inr h0)
+        split
+        · exact h
+        · exact h
+        · rename_i hlp
           split
           · exact h
-          · cases dp with
-            | file c => exact h.detach src
-            | dir =>
-              simp only
-              split
-              · exact h.detach src
-              · rename_i hnp
-                exact h.moveSubtree hs hd (isDir_iff.mpr hlp) (Bool.eq_false_iff.mpr hnp)
+          · rename_i hnp
+            split
+            · exact h
+            · exact h.moveSubtree hs hd (isDir_iff.mpr hlp) (Bool.eq_false_iff.mpr hnp)
 
 /-- a successful `open` for writing keeps the invariant and leaves a file at the path -/
 theorem wf_mem_openFile {fs fs' : Fs} (h : WF fs) {p : Path} {mode : Nat} {c : Bytes} {pos : Nat}
@@ -995,11 +970,13 @@ theorem wf_mem_openFile {fs fs' : Fs} (h : WF fs) {p : Path} {mode : Nat} {c : B
       split at hr
       · rename_i hl
         split at hr
-        · rename_i hd
-          simp only [Option.some.injEq, Prod.mk.injEq] at hr
-          rw [← hr.1]
-          have hwf := h.append (e := Entry.file []) hp hl hd
-          exact ⟨hwf, ⟨[], lookup_of_mem hwf (List.mem_append.mpr (Or.inr (by simp)))⟩⟩
+        · split at hr
+          · rename_i hd
+            simp only [Option.some.injEq, Prod.mk.injEq] at hr
+            rw [← hr.1]
+            have hwf := h.append (e := Entry.file []) hp hl hd
+            exact ⟨hwf, ⟨[], lookup_of_mem hwf (List.mem_append.mpr (Or.inr (by simp)))⟩⟩
+          · cases hr
         · cases hr
       · cases hr
       · rename_i c0 hl
@@ -1202,84 +1179,5 @@ theorem wf_mem_mkdir {fs fs' : Fs} (h : WF fs) {p : Path} {parents existOk : Boo
       · rename_i hany
         cases hr
         exact WF.createMissing h (any_isFile_false (by simpa using hany))
-
-/-! ### the regions are exact: inside them the two backends DO differ -/
-
-theorem posix_openFile_ne {fs : Fs} (p : Path) (mode : Nat)
-    (hreg : 3 ≤ mode ∧ lookup fs p = none ∧ isDir fs p.dropLast = true) :
-    Backend.ofRes (Posix.openFile fs p mode) ≠ Fs.openFile fs p mode := by
-  obtain ⟨hm, hl, hd⟩ := hreg
-  have hp : p ≠ [] := (lookup_none_iff.mp hl).1
-  obtain ⟨er, he⟩ := resolve_of_none hl
-  unfold Posix.openFile Fs.openFile
-  have h1 : ¬ (mode = 1 ∨ mode = 2) := by omega
-  match mode, hm, h1 with
-  | m + 3, _, h1 =>
-    simp only [h1, if_false, he, Backend.ofRes, hp, hl, hd, if_true]
-    intro h; cases h
-
-theorem posix_rename_ne {fs : Fs} (h : WF fs) (src dst : Path) (hs : src ≠ []) (hdst : lookup fs dst = none)
-    (hreg : src = dst ∨ (exists_ fs src = true ∧ isFile fs dst.dropLast = true) ∨
-      (exists_ fs src = true ∧ isDir fs dst.dropLast = true ∧ src.isPrefixOf dst = true)) :
-    Backend.posix.rename fs src dst ≠ Fs.rename fs src dst := by
-  have hd : dst ≠ [] := (lookup_none_iff.mp hdst).1
-  simp only [Backend.posix]
-  rcases hreg with heq | ⟨hex, hf⟩ | ⟨hex, hdd, hpre⟩
-  · -- same path, which does not exist
-    subst heq
-    have : Posix.rename fs src src = .error .ENOENT ∨ ∃ e, Posix.rename fs src src = .error e := by
-      right
-      unfold Posix.rename
-      simp only [hs, or_self, if_false]
-      cases Posix.dirPart fs src with
-      | error e => exact ⟨e, rfl⟩
-      | ok u => simp only [hdst]; exact ⟨_, rfl⟩
-    obtain ⟨e, he⟩ : ∃ e, Posix.rename fs src src = .error e := by
-      rcases this with h1 | h1
-      · exact ⟨_, h1⟩
-      · exact h1
-    rw [he]
-    simp [Fs.rename]
-  · obtain ⟨se, hse⟩ := exists_iff.mp hex
-    obtain ⟨c, hc⟩ := isFile_iff.mp hf
-    have hne : src ≠ dst := by intro h0; rw [h0, hdst] at hse; cases hse
-    have hperr : ∃ e, Posix.rename fs src dst = .error e := by
-      unfold Posix.rename
-      simp only [hs, hd, or_self, if_false]
-      rw [dirPart_ok_of_lookup h hse]
-      cases hdp : Posix.dirPart fs dst with
-      | error e => exact ⟨e, rfl⟩
-      | ok u =>
-        have := isDir_iff.mp (parent_of_dirPart_ok hdp)
-        rw [hc] at this; cases this
-    obtain ⟨e, he⟩ := hperr
-    rw [he]
-    have hsp : exists_ fs src.dropLast = true := exists_of_isDir (h.isDir_parent (mem_of_lookup hs hse))
-    unfold Fs.rename
-    simp only [hne, if_false, hs, hd, or_self, hse, hc, hsp, Bool.not_true, Bool.false_eq_true]
-    intro heq
-    have h1 := congrArg Prod.fst heq
-    simp only at h1
-    have hmem : (src, se) ∈ fs := mem_of_lookup hs hse
-    rw [h1] at hmem
-    have := (List.mem_filter.mp hmem).2
-    simp only [Bool.not_eq_true'] at this
-    rw [prefix_iff.mpr (List.prefix_refl src)] at this
-    cases this
-  · obtain ⟨se, hse⟩ := exists_iff.mp hex
-    have hne : src ≠ dst := by intro h0; rw [h0, hdst] at hse; cases hse
-    have hdl := isDir_iff.mp hdd
-    have hsp : exists_ fs src.dropLast = true := exists_of_isDir (h.isDir_parent (mem_of_lookup hs hse))
-    have hp : Posix.rename fs src dst = .error .EINVAL := by
-      unfold Posix.rename
-      simp only [hs, hd, or_self, if_false]
-      rw [dirPart_ok_of_lookup h hse, dirPart_ok_of_parent h hdd]
-      simp [hse, hne, hpre]
-    rw [hp]
-    unfold Fs.rename
-    simp only [hne, if_false, hs, hd, or_self, hse, hdl, hsp, Bool.not_true, Bool.false_eq_true, hpre, if_true]
-    intro heq
-    have := congrArg Prod.snd heq
-    simp at this
 
 end Model.FsLemmas
